@@ -239,6 +239,12 @@ def check_valid(sym: Symbol, s: str) -> Tuple[bool, Optional[str]]:
         int(s, base)
     except ValueError:
         return False, f"'{s}' is a malformed {TYPE_TO_STR[sym.orig_type]} value"
+    # Accept only what Symbol.set_value() will accept for the text the input dialog passes on
+    probe = s.strip()
+    if sym.orig_type == HEX and not probe.startswith(("0x", "0X")):
+        probe = "0x" + probe
+    if not sym.value_is_valid(probe):
+        return False, f"'{s}' is a malformed {TYPE_TO_STR[sym.orig_type]} value"
 
     def _bound(b: str) -> int:
         # An option without a value as a bound counts as 0, as in Symbol.str_value
